@@ -72,7 +72,8 @@ class Check(PropertyCheck):
         return ("random request sequences against one server process: GET, POST of diagrams (empty, up to 20 kB, hostile "
                 "markup, bodies related to earlier ones: repeated, same length with a different tail/head, same prefix "
                 "but not UTF-8, a prefix), invalid UTF-8 bodies, oversized bodies (413), other methods/paths (405/404), malformed requests; "
-                "sequential and from 16 concurrent clients; liveness probe after every hostile request; non-trivial = POST "
+                "impatient clients (complete or half requests of four body sizes up to 150 kB, abandoned 40+ times each) followed by "
+                "a conversion of every size; sequential and from 16 concurrent clients; liveness probe after every hostile request; non-trivial = POST "
                 "of a non-empty diagram answered 200, distinct by body")
 
     def gen_requests(self, n):
@@ -226,6 +227,9 @@ class Check(PropertyCheck):
             st, _ = http(self.port, "GET", "/")
             if st != 200:
                 fails.append(Failure("the server stopped answering after an oversized body", {"size": len(big)}))
+            # impatient clients: complete or partial requests whose client goes away without reading the answer, many
+            # times over, for bodies of several sizes; afterwards bodies of every size are answered as before
+            fails += self.impatient_clients()
             # concurrent clients: answers must be the same as sequentially
             conc = [rq for rq in reqs if rq[0] != "RAW"][: self.scale(160, 1600)]
             idx = [i for i, rq in enumerate(reqs) if rq[0] != "RAW"][: len(conc)]
@@ -267,6 +271,69 @@ class Check(PropertyCheck):
         finally:
             self.stop()
         return fails, dis
+
+    def impatient_clients(self):
+        r = self.rng
+        fails = []
+        unit = ("  +---------+      .------.     /\\  \n"
+                "  | box %3d |----->| node |<---*  o \n"
+                "  +---------+      '------'     \\/  \n"
+                "       |               ^            \n"
+                "       v               |            \n"
+                "   \"label\"     -------+----->      \n\n")
+        bodies = {
+            "small": (unit % 1).encode(),
+            "medium": "".join(unit % i for i in range(20)).encode(),
+            "large": ("".join(unit % i for i in range(16)) + (" " * 99 + "\n") * r.range(135, 150)).encode(),
+            "huge": ("".join(unit % i for i in range(24)) + (" " * 99 + "\n") * r.range(600, 1400)).encode(),
+        }
+        want = self.expected([("POST", "/", b, "utf8") for b in bodies.values()])
+        want = {k: want.get(i) for i, k in enumerate(bodies)}
+
+        def verify(when):
+            for k, b in bodies.items():
+                self.evaluations += 1
+                st, ans = http(self.port, "POST", "/", b, timeout=120)
+                if st != 200 or ans != want[k]:
+                    fails.append(Failure("%s: a %s body (%d bytes) was not answered 200 with the library's conversion" % (when, k, len(b)),
+                                         {"method": "POST", "path": "/", "size": len(b), "kind": "after-impatient-clients",
+                                          "body_hex": b.hex()[:400]}, {"status": st}))
+                    return False
+            st, _ = http(self.port, "GET", "/")
+            if st != 200:
+                fails.append(Failure("%s: GET is no longer answered" % when, {"method": "GET", "path": "/"}, {"status": st}))
+                return False
+            return True
+
+        if not verify("before any abandoned request"):
+            return fails
+        rounds = self.scale(40, 120)
+        for k, b in bodies.items():
+            head = ("POST / HTTP/1.1\r\nHost: localhost\r\nContent-Length: %d\r\n\r\n" % len(b)).encode()
+            for j in range(rounds):
+                self.evaluations += 1
+                try:
+                    s = socket.create_connection(("127.0.0.1", self.port), timeout=5)
+                    v = j % 4
+                    if v == 3:
+                        s.sendall(head + b[: len(b) // 2])      # half a body, then gone
+                    else:
+                        s.sendall(head + b)                      # a complete request, the answer is never read
+                        if v == 1:
+                            time.sleep(0.02)
+                        elif v == 2:
+                            try:
+                                s.shutdown(socket.SHUT_WR)         # half-close, then gone
+                            except OSError:
+                                pass
+                            time.sleep(0.01)
+                    s.close()
+                except OSError:
+                    pass
+            time.sleep(0.5)
+            if not verify("after %d clients that posted a %s body (%d bytes) and went away" % (rounds, k, len(b))):
+                break
+        return fails
 
     def correspondence(self):
         self._fails, dis = self.run_all()
